@@ -8,6 +8,7 @@ import NurbsVerif.Lemmas.InsertObjDir
 import NurbsVerif.Lemmas.InsertObjExamples
 import NurbsVerif.Lemmas.KnotRowsInsVol
 import Mathlib.Data.List.Perm.Basic
+import NurbsVerif.Lemmas.UniqueRemove
 
 /-!
 # C04  Knot insertion never changes the shape
@@ -644,5 +645,23 @@ example : insertKnotVolRows exVolQ 0 (1/3) 1 (1/10000000) true = insertKnotDir e
 /-- … and the w direction (the rows are whole u-v layers), evaluated -/
 example : (insertKnotVolRows exVolQ 2 (1/4) 1 (1/10000000) true).map (fun T => (T.sizes, T.kv 2))
     = some ([2, 2, 5], [0,0,0,1/4,1/2,1,1,1]) := by decide +kernel
+
+/-- **Any net with the same curve over the refined knot vector is the net the insertions produce**
+    (uniqueness of B-spline control points, C06 `control_points_unique`): after any admissible sequence of
+    insertion requests, a control net `R` of the same size and dimension over the resulting knot vector (in
+    which no basis function vanishes on the whole domain, `AllActive`) whose curve has the points of the
+    ORIGINAL curve on the half-open domain equals the net A5.1 returned.  This is what makes a
+    specification-level model of an insertion / refinement routine legitimate. -/
+theorem insert_sequence_net_unique (p d : ℕ) (reqs : List (K × ℕ × ℕ)) (st : List K × List (List K))
+    (hwf : CurveWF p d st.1 st.2) (hok : ReqsOk p st reqs) (R : List (List K)) (hR : NetOk d R)
+    (hlen : R.length = (reqs.foldl (insStep p) st).2.length)
+    (hact : AllActive p (reqs.foldl (insStep p) st).2.length (fnOf (reqs.foldl (insStep p) st).1))
+    (hsame : ∀ u, fnOf st.1 p ≤ u → u < fnOf st.1 st.2.length → ∀ j,
+      (curvePoint p (fnOf (reqs.foldl (insStep p) st).1) R u).getD j 0 = (curvePoint p (fnOf st.1) st.2 u).getD j 0) :
+    R = (reqs.foldl (insStep p) st).2 :=
+  insert_sequence_unique p d reqs st hwf hok R hR hlen hact hsame
+
+/-- non-vacuity of `AllActive`: the knots `0,0,0,1/2,1,1,1` with four quadratic basis functions -/
+example : AllActive 2 4 (fnOf ([0,0,0,1/2,1,1,1] : List ℚ)) := by decide +kernel
 
 end C04
